@@ -1098,6 +1098,8 @@ decl(struct scope *s, struct func *f)
 				error(&tok.loc, "function '%s' declared with alignment specifier", name);
 			if (f && sc && sc != SCEXTERN)  /* 6.7.1p7 */
 				error(&tok.loc, "function '%s' with block scope may only have storage class 'extern'", name);
+			if (t->base->prop & PROPVM)  /* 6.7.6.2p2 */
+				error(&tok.loc, "function '%s' has variably modified return type", name);
 			d = declcommon(s, kind, name, asmname, t, tq, sc, prior);
 			d->value = mkglobal(d);
 			d->u.func.inlinedefn = d->linkage == LINKEXTERN && fs & FUNCINLINE && !(sc & SCEXTERN) && (!prior || prior->u.func.inlinedefn);
